@@ -476,7 +476,10 @@ def _ind(lines, by):
 
 
 CONTEXTS = ["plain", "if-sole", "if-second", "else-sole", "for", "try", "semi-after", "semi-before", "oneline-if",
-            "trailing-comment", "comment-above", "nested-def", "deep", "tab", "tab-deep", "with"]
+            "trailing-comment", "comment-above", "nested-def", "deep", "tab", "tab-deep", "with",
+            # the site as the ONLY statement of every other kind of block (a removed statement must leave `pass`)
+            "elif-sole", "except-sole", "except-if-sole", "finally-sole", "tryelse-sole", "forelse-sole", "with-sole",
+            "case-sole", "case-if-sole"]
 
 
 def apply_context(ctxname: str, site: Site, site_lines):
@@ -497,6 +500,24 @@ def apply_context(ctxname: str, site: Site, site_lines):
         return pre + ["try:"] + _ind(s, "    ") + ["finally:", "    eff(6)"] + post
     if ctxname == "with":
         return pre + ["with open('/dev/null') as _fh:"] + _ind(s + ["eff(2)"], "    ") + post
+    if ctxname == "elif-sole":
+        return pre + ["if a is None:", "    eff(3)", "elif a is not None:"] + _ind(s, "    ") + post
+    if ctxname == "except-sole":
+        return pre + ["try:", "    OBJ.pair[eff(6)]", "except IndexError:"] + _ind(s, "    ") + post
+    if ctxname == "except-if-sole":
+        return pre + ["try:", "    OBJ.pair[eff(6)]", "except IndexError:", "    if a is not None:"] + _ind(s, "        ") + post
+    if ctxname == "finally-sole":
+        return pre + ["try:", "    eff(6)", "finally:"] + _ind(s, "    ") + post
+    if ctxname == "tryelse-sole":
+        return pre + ["try:", "    eff(6)", "except IndexError:", "    eff(1)", "else:"] + _ind(s, "    ") + post
+    if ctxname == "forelse-sole":
+        return pre + ["for _k in range(2):", "    eff(8)", "else:"] + _ind(s, "    ") + post
+    if ctxname == "with-sole":
+        return pre + ["with open('/dev/null') as _fh:"] + _ind(s, "    ") + post
+    if ctxname == "case-sole":
+        return pre + ["match a:", "    case None:", "        eff(3)", "    case _:"] + _ind(s, "        ") + post
+    if ctxname == "case-if-sole":
+        return pre + ["match a:", "    case None:", "        eff(3)", "    case _:", "        if a is not None:"] + _ind(s, "            ") + post
     if ctxname in ("deep", "tab-deep"):
         return pre + ["for _k in range(2):", "    if a is not None:"] + _ind(["eff(7)"] + s, "        ") + post
     if ctxname == "semi-after":
@@ -1519,6 +1540,23 @@ def focused_ignore_programs():
         ("line1-two-codes", ['def f0(p: int = "zz") -> int: return undef_0'] + _HEAD, True),
         ("last-line-no-newline", _HEAD + [last], False),
         ("last-line-two-codes-no-newline", _HEAD + ["def holder(p: int = 0) -> None:", '    f1("a"); f1(1, 2, 3)'], False),
+    ] + [
+        # every shape of the leading comment block (which is where a file-level ignore lives) before a first statement
+        # that carries a diagnostic, with the same code again further down
+        (f"prefix[{pname}]-first-statement-and-same-code-later", prefix + [first] + _HEAD + [last], True)
+        for pname, prefix in [
+            ("blank", [""]),
+            ("comment+blank", ["# a leading comment", ""]),
+            ("shebang+blank", ["#!/usr/bin/env python", ""]),
+            ("2comments+blank", ["# licence line 1", "# licence line 2", ""]),
+            ("comment+blank+comment", ["# licence", "", "# about this module"]),
+            ("comment+2blank", ["# licence", "", ""]),
+            ("blank+comment", ["", "# a comment after a blank line"]),
+            ("coding+comment+blank", ["# -*- coding: utf-8 -*-", "# licence", ""]),
+            ("indented-comment+blank", ["    # an indented comment", ""]),
+            ("docstring", ['"""Module docstring."""']),
+            ("comment+blank+docstring+blank", ["# licence", "", '"""Module docstring."""', ""]),
+        ]
     ]:
         text = "\n".join(lines) + ("\n" if nl else "")
         for variant in ("lf", "crlf"):
@@ -1747,7 +1785,7 @@ RULE = (
     "one-specifier and 4 two-specifier templates x 19+6 operand forms (typed int/bool/float/str/tuple/IntEnum parameters, "
     "attributes, 1-tuples) x 5 statement kinds; too_many_positional_args: 23 callee/call forms x 4 statement kinds; "
     "unused_ignore: 23 comment placements; missing_await: 5) in the plain context, every canonical site (thorough: every "
-    "site) in 15 further contexts (sole/second statement of if/else/for/try/with blocks, `;` neighbours, one-line if, "
+    "site) in 24 further contexts (sole/second statement of if/elif/else/for/for-else/try/except/try-else/finally/with/case blocks, nested once more, `;` neighbours, one-line if, "
     "comments, nested def, two nesting levels, tab indentation), ~100 decompiler riders, plus random 2-3 unit combinations; "
     "every program is iterated until nothing is applied. add-ignores case = one whole history of a vp.illtyped program "
     "(LF / tab / CRLF) or of a single-snippet / line-1 / last-line program. Non-trivial = a replacement was proposed and "
